@@ -152,11 +152,21 @@ def run_case(spec):
         return dict(evals=0, sigs=[], viol=[], stats={'skipped_default_n_constraints_with_unknown': 1})
     base_name = name[:-len('_Supervised')]
     trig = c07.lab_triggers(y) + [lay]
-    skipped = 0
+    skipped = skipped_w = 0
     for seed in (0, 1, 2):
         p = zoo.base_params(name, ds)
         p.update(over)
         p['random_state'] = seed
+        if name == 'RCA_Supervised':
+            # a request above the number of chunks the labeled points can form is (rightly) refused with ValueError;
+            # the layouts remove labels, so the request is capped by what THIS label vector allows
+            mx_ = int(sum(int((y == c_).sum()) // p['chunk_size'] for c_ in np.unique(y[y >= 0])))
+            p['n_chunks'] = max(1, min(p['n_chunks'], mx_))
+        if name == 'LSML_Supervised' and p.get('weights') is not None:
+            a_, b_, c_, d_ = Constraints(y).positive_negative_pairs(p['n_constraints'], same_length=True, random_state=seed)
+            if len(a_) != len(p['weights']):
+                skipped_w += 1          # fewer quadruplets can be formed than weights were supplied: not a valid call
+                continue
         if dup is not None and name != 'RCA_Supervised':
             nc_ = p['n_constraints'] if p['n_constraints'] is not None else 20 * len(np.unique(y)) ** 2
             a_, b_, c_, d_ = Constraints(y).positive_negative_pairs(nc_, same_length=(name == 'LSML_Supervised'), random_state=seed)
@@ -287,6 +297,6 @@ def run_case(spec):
                               '%.3g) [seed %d, %s]' % (np.abs(sup2.get_mahalanobis_matrix() - M).max(), seed, lay), trig))
         if ncons:
             sigs.add((name, pi, lay, dsn, seed, ncons))
-    return dict(evals=evals, sigs=sigs, viol=viol, stats={'skipped_collapsed_pair_generated': skipped},
+    return dict(evals=evals, sigs=sigs, viol=viol, stats={'skipped_collapsed_pair_generated': skipped, 'skipped_weights_longer_than_constraints': skipped_w},
                 sample={'learner': name, 'dataset': dsn, 'parameters': {k: (v if not isinstance(v, np.ndarray) else 'array%s' % (v.shape,))
                                                                        for k, v in over.items()}, 'layout': lay, 'labels': y.tolist()})
